@@ -1,7 +1,8 @@
 SPECIFICATION Spec
-CONSTANTS MaxT = 2 MaxS = 3 RewardVals = {0, 1, 2} Policies = {"munkres", "greedy", "random", "allvisible"}
+CONSTANTS MaxT = 2 MaxS = 3 RewardVals = {0, 1, 2} Policies = {"munkres", "greedy", "random", "allvisible"} VisBonus = 0
 INVARIANT NonEmpty
 INVARIANT DecisionFeasible
 INVARIANT RelabelEquivariant
+INVARIANT ScaleInvariant
 INVARIANT MunkresOptimal
 INVARIANT GreedyOptimal
